@@ -205,6 +205,7 @@ CONTRACTS = [
           "W_again": f"implies({KEY} in E(old(self)), W(self, {KEY}) == (W(old(self), {KEY}) + real(1 if weight is None else weight) if weighted(self) else W(old(self), {KEY})))",
           **OTHER_EDGES,
           "M_given": f"implies(metadata is not None, M(self, {KEY}) == metadata)",
+          "ids": "all(ID(self, k) == ID(old(self), k) for k in E(old(self)))",
           **NODE_MD_KEPT, **SAME_WEIGHTED,
       },
       invariants={0: {"inv": _add_nodes_inv}, 1: {"inv": _append_inv}}),
@@ -284,6 +285,25 @@ CONTRACTS = [
                       "NM_kept": "all(NM(self, n) == NM(old(self), n) for n in V(old(self)))",
                       "weighted": "weighted(self) == weighted(old(self))", "HM": "HM(self) == HM(old(self))"}},
       properties=["C03", "C19"]),
+    # node removal that shrinks the incident records (same time, node set minus the node); coinciding records add their weights
+    Contract(f"{CLS}.remove_node@keep", FILE, [CLS, "remove_node"], self_cls=CLS, properties=["C03", "C19"],
+      params={"node": "Node", "keep_edges": "Bool"}, fixed={"keep_edges": True},
+      requires={"wf": "wf(self)"},
+      raises={"ValueError": "node not in V(self)"},
+      modifies=["_adj", "_node_metadata", "_edge_list", "_reverse_edge_list", "_weights", "_edge_metadata", "_next_edge_id"],
+      ensures={"wf": "wf(self)",
+               "V": "all((n in V(self)) == (n in V(old(self)) and n != node) for n in Node)",
+               "E": "all((k in E(self)) == (node not in snd(k) and (k in E(old(self)) or (node not in snd(k) and strict(snd(k)) and len(snd(k)) >= 1 and pair(fst(k), with_node(snd(k), node)) in E(old(self))))) for k in Key)",
+               "W": "implies(weighted(self), all(W(self, k) == (W(old(self), k) if k in E(old(self)) else 0) + (W(old(self), pair(fst(k), with_node(snd(k), node))) if (node not in snd(k) and strict(snd(k)) and len(snd(k)) >= 1 and pair(fst(k), with_node(snd(k), node)) in E(old(self))) else 0) for k in E(self)))",
+               "NM_kept": "all(NM(self, n) == NM(old(self), n) for n in V(self))",
+               "weighted": "weighted(self) == weighted(old(self))"},
+      invariants={0: {
+          "wf": "wf(self)", "V": "V(self) == V(old(self))",
+          "E": "all((k in E(self)) == ((k in E(old(self)) and not (node in snd(k) and count(_done0, ID(old(self), k)) >= 1)) or (node not in snd(k) and strict(snd(k)) and len(snd(k)) >= 1 and pair(fst(k), with_node(snd(k), node)) in E(old(self)) and count(_done0, ID(old(self), pair(fst(k), with_node(snd(k), node)))) >= 1)) for k in Key)",
+          "ids": "all(implies(k in E(self), ID(self, k) == ID(old(self), k)) for k in E(old(self)))",
+          "W": "implies(weighted(self), all(W(self, k) == (W(old(self), k) if (k in E(old(self)) and not (node in snd(k) and count(_done0, ID(old(self), k)) >= 1)) else 0) + (W(old(self), pair(fst(k), with_node(snd(k), node))) if (node not in snd(k) and strict(snd(k)) and len(snd(k)) >= 1 and pair(fst(k), with_node(snd(k), node)) in E(old(self)) and count(_done0, ID(old(self), pair(fst(k), with_node(snd(k), node)))) >= 1) else 0) for k in E(self)))",
+          "NM_kept": "all(NM(self, n) == NM(old(self), n) for n in V(old(self)))",
+          "weighted": "weighted(self) == weighted(old(self))"}}),
     Contract("degree[TemporalHypergraph]", "hypergraphx/measures/degree.py", ["degree"], properties=["C03", "C08"],
       params={"hg": "Obj[TemporalHypergraph]", "node": "Node", "order": "Opt[Int]", "size": "Opt[Int]"}, result="Int", pure=True,
       requires={"wf": "wf(hg)"},
